@@ -61,18 +61,24 @@ class MiniEval:
   MAX_STEPS = 200000
   MAX_DEPTH = 40
 
-  def __init__(self, ix: Index, node_methods: typing.Optional[typing.Dict[str, typing.Callable]] = None, opaque_calls: typing.Iterable[str] = ()):
+  def __init__(self, ix: Index, node_methods: typing.Optional[typing.Dict[str, typing.Callable]] = None, opaque_calls: typing.Iterable[str] = (),
+               func_hooks: typing.Optional[typing.Dict[str, typing.Callable]] = None, node_classes: typing.Optional[typing.Dict[str, ClassInfo]] = None):
     self.ix = ix
     self.ce = ConstEval(ix, symbolic_ok=True)
     self.trace: typing.List[tuple] = []
     self.steps = 0
     self.node_methods = dict(node_methods or {})
+    self.func_hooks = dict(func_hooks or {})          # qualname of a package function -> stand-in (answers a call from tables the caller extracted)
+    self.node_classes = dict(node_classes or {})      # node kind -> class of the package whose methods are interpreted on the node
     self.opaque = set(opaque_calls)
+    self.opaque_results = dict(opaque_calls) if isinstance(opaque_calls, dict) else {}
 
   # ---------------------------------------------------------------------------------------
   def call(self, f: FuncInfo, args: typing.List[typing.Any], kwargs: typing.Optional[dict] = None, closure: typing.Optional[dict] = None, depth=0):
     if depth > self.MAX_DEPTH:
       raise Raised()          # runaway recursion
+    if f.qualname in self.func_hooks:
+      return self.func_hooks[f.qualname](*args)
     a = f.node.args
     names = [x.arg for x in a.posonlyargs + a.args]
     env = dict(closure or {})
@@ -197,6 +203,12 @@ class MiniEval:
               raise Raised()
           else:
             raise NotConst("del")
+      elif isinstance(st, ast.With):
+        for it in st.items:
+          v = self.ev(it.context_expr, env, f, depth)
+          if it.optional_vars is not None:
+            self.bind(it.optional_vars, v, env, f, depth)
+        self.block(st.body, env, f, depth)
       elif isinstance(st, ast.Try):
         try:
           self.block(st.body, env, f, depth)
@@ -227,6 +239,8 @@ class MiniEval:
     return bool(v)
 
   def iterate(self, v):
+    if hasattr(v, "__next__"):
+      return v                       # an iterator made by iter(): consumed lazily, as in the language
     if isinstance(v, Node):
       return list(v.children)
     if isinstance(v, (list, tuple, set, frozenset, dict, str, range)):
@@ -527,13 +541,16 @@ class MiniEval:
     kwargs = {k.arg: self.ev(k.value, env, f, depth) for k in e.keywords if k.arg is not None}
     if isinstance(fn, ast.Name) and fn.id in self.opaque:
       self.trace.append(("opaque", fn.id, tuple(args)))
-      return None
+      r_ = self.opaque_results.get(fn.id)
+      return r_() if callable(r_) else r_
     # builtins
     if isinstance(fn, ast.Name) and fn.id not in env:
       b = fn.id
       if b in ("list", "tuple", "set", "frozenset", "sorted", "reversed", "iter"):
         seq = self.iterate(args[0]) if args else []
-        if b == "list" or b == "iter":
+        if b == "iter":
+          return seq if hasattr(seq, "__next__") else iter(list(seq))
+        if b == "list":
           return list(seq)
         if b == "tuple":
           return tuple(seq)
@@ -571,7 +588,14 @@ class MiniEval:
           if b in ("any", "all", "sum", "min", "max") and len(args) == 1:
             args = [self.iterate(args[0])]
           if b == "next":
-            seq = self.iterate(args[0])
+            if hasattr(args[0], "__next__"):
+              try:
+                return next(args[0])
+              except StopIteration:
+                if len(args) > 1:
+                  return args[1]
+                raise Raised()
+            seq = self.iterate(args[0])       # next(<generator expression>): its first item
             if seq:
               return seq[0]
             if len(args) > 1:
@@ -669,7 +693,8 @@ class MiniEval:
         d = unparse(fn)
         if d.split(".")[0] in ("LOGGER", "logging") or d in self.opaque or fn.attr in self.opaque:
           self.trace.append(("opaque", d, tuple(args)))
-          return None
+          r_ = self.opaque_results.get(d, self.opaque_results.get(fn.attr))
+          return r_() if callable(r_) else r_
         r = self.ix.resolve(f.module, fn, cls=f.cls, func=f)
         if isinstance(r, FuncInfo):
           callee = ("closure", r, {})
@@ -694,6 +719,13 @@ class MiniEval:
         a = [clo.get("__self__", env.get("self", env.get("cls")))] + a
       closure_env = {k: v for k, v in clo.items() if k != "__self__"}
       return self.call(fi, a, kwargs, closure_env, depth + 1)
+    if isinstance(callee, ClassInfo) and any(c.qualname == "ttconv.model:ContentElement" for c in self.ix.mro(callee)):
+      # a model element constructed by the interpreted code: a fresh sample node (its constructor arguments kept)
+      n_ = Node(callee.name, f"new_{callee.name.lower()}{len(self.trace)}", (), ctor_args=tuple(args))
+      if callee.name == "Text" and len(args) >= 2:
+        n_.fields["text"] = args[1]
+      self.trace.append(("new", n_, tuple(args)))
+      return n_
     if isinstance(callee, ClassInfo):
       # a record (NamedTuple / dataclass of the package) built from sample values
       fields = list(callee.field_order) or list(callee.ann)
@@ -725,6 +757,11 @@ class MiniEval:
   def node_call(self, node: Node, name: str, args, kwargs, f, depth):
     if name in self.node_methods:
       return self.node_methods[name](node, *args, **kwargs)
+    ci = self.node_classes.get(node.kind)
+    if ci is not None:
+      m = self.ix.lookup_method(ci, name)
+      if m is not None:
+        return self.call(m, [node] + list(args), kwargs, None, depth + 1)
     if name in ("has_children",):
       return bool(node.children)
     if name in ("first_child",):
@@ -748,6 +785,29 @@ class MiniEval:
       if name.startswith("iter_") and not args:
         return list(node.fields.get(name[5:], []))
       raise NotConst(f"sample node has no value for {name}{args!r}")
-    # an effect on the node: recorded
+    # an effect on the node: recorded; the child list follows pushes and removals
     self.trace.append((node, name, tuple(args)))
+    if name == "push_child" and len(args) == 1 and isinstance(args[0], Node):
+      if args[0].parent is not None:
+        raise Raised()
+      node.children.append(args[0])
+      args[0].parent = node
+    elif name == "push_children" and len(args) == 1:
+      for c_ in self.iterate(args[0]):
+        if isinstance(c_, Node):
+          node.children.append(c_)
+          c_.parent = node
+    elif name == "remove_child" and len(args) == 1 and isinstance(args[0], Node):
+      if not any(c_ is args[0] for c_ in node.children):
+        raise Raised()
+      node.children = [c_ for c_ in node.children if c_ is not args[0]]
+      args[0].parent = None
+    elif name == "remove" and not args:
+      if node.parent is not None:
+        node.parent.children = [c_ for c_ in node.parent.children if c_ is not node]
+        node.parent = None
+    elif name == "remove_children" and not args:
+      for c_ in node.children:
+        c_.parent = None
+      node.children = []
     return None
